@@ -133,6 +133,7 @@ var Layouts = []Layout{
 	{Name: "attr-list", Pre: "\t<div title={", Post: "}>x</div>", Toks: []string{`s`, `,`}},
 	{Name: "class", Pre: "\t<div class={", Post: "}>x</div>", Toks: []string{`"a"`, `,`, `templ.KV("b", b)`, `,`}},
 	{Name: "class-map", Pre: "\t<div class={", Post: "}>x</div>", Toks: []string{`"a"`, `,`, `map[string]bool{"b": b`, `,`, `}`, `,`}},
+	{Name: "class-map-key", Pre: "\t<div class={", Post: "}>x</div>", Toks: []string{`"a"`, `,`, `map[string]bool{"b":`, `b`, `,`, `}`, `,`}},
 	{Name: "class-one", Pre: "\t<div id=\"i\" class={", Post: "}></div>", Toks: []string{`s`, `,`, `s`}},
 	{Name: "style", Pre: "\t<div style={", Post: "}>x</div>", Toks: []string{`templ.SafeCSS(`, `"color:red"`, `)`}},
 	{Name: "bool-attr", Pre: "\t<input disabled?={", Post: "}/>", Toks: []string{`b`, `&&`, `b`}},
